@@ -161,3 +161,42 @@ TEXT["C20"] = {
              "Go's fmt/time/json renderings are parameters. Not modelled: templates with define/with/variables/parenthesised pipelines (rejected, reported as broken obligation if a shipped template "
              "starts using them). The tie is sampled."),
 }
+
+TEXT["C16"] = {
+    "design_ref": "DESIGN.md §4.16",
+    "technique": "Lean 4 theorems over a model of router + handlers parametrised by an arbitrary backend, instantiated with the route table REGENERATED from coordinator.go on every run; + differential correspondence of the real router/handlers (httptest, real storage, real evaluator) against the model",
+    "text": ("Proof: Props/C16.lean proves, for EVERY backend (storage, evaluator, configuration) and world: every handler registered in the generated route table is modelled and answers 200 or 404, "
+             "never a failure (every_routed_request_answered, routes_are_modelled by `decide` over the generated table); a path matching no pattern of any method, also after httprouter's "
+             "normalisations, is answered 404 (unrouted_is_404); per storage-backed route, existing data gives 200/error=false with exactly the stored data and an unknown cluster/group/topic gives "
+             "404/error=true (topic_list, topic_detail, topic_consumers, consumer_list, consumer_detail), status routes give 404 with status NOTFOUND and error=false (consumer_status); config routes "
+             "give 404 for a single-segment name that is not a configured module and 200 otherwise (unknown_config_is_404, known_config_is_200, via isSet_child); reads are pure except that a consumer "
+             "lookup drops an already expired group (gets_are_pure, storage_lookup_only_drops_expired). Known findings, with witnesses: dotted names reach into viper paths and get 200 (D15, "
+             "dotted_name_witness), DELETE answers 200 for unknown clusters/groups (D18, delete_unknown_witness). Tie: ~7700 requests per quick run over every route x odd parameters x methods "
+             "against the real router wired to real storage and evaluator; status code, content type, envelope and headers compared."),
+    "note": ("Trusted: Lean kernel + 3 standard axioms; httprouter as a contract (for an unmatched path ending in '/' both redirect and 404 are admitted: it depends on the radix tree); net/http, TLS, "
+             "listeners not modelled; the harness decodes JSON with its own structs. The tie is sampled."),
+}
+TEXT["C17"] = {
+    "design_ref": "DESIGN.md §4.17",
+    "technique": "Lean 4 theorems over the handler payloads and a model of the Prometheus scrape (stateless after the repair) + differential correspondence of JSON bodies and parsed /metrics text against the composed storage+evaluator+cache model over ingest/delete/expire/scrape histories",
+    "text": ("Proof: Props/C17.lean proves that every storage-backed handler's payload IS the backend's reply (json_detail_is_state, json_status_is_evaluation, json_lists_are_state); that a scrape "
+             "writes, per group, the status's total lag and status and each listed partition's lag under that partition's own topic and id (metrics_equal_status, group_series_labelled), topic offsets "
+             "by position (topic_series_by_position); that when every partition of a topic has an offset the topic reply lists each at its own position (topic_offsets_attribution_partial; "
+             "shift_witness is known finding D8 — a leaderless partition shifts the positions); and that a scrape's series carry only clusters of the current listing, write nothing for a NOTFOUND "
+             "group, and are a function of the current state only (scrape_reports_only_listed_clusters, notfound_group_writes_nothing, scrape_cluster_unfolds). Three genuine defects (series of deleted "
+             "topics, of expired groups, and series resurrected by a scrape inside the cache lifetime lingered forever) were found by the differential run and repaired in /repo (one fix: commit). "
+             "Tie: real storage + evaluator cache + HTTP + Prometheus registry vs the composed model; every field of every body and every series compared."),
+    "note": ("Trusted: Lean kernel + 3 standard axioms; the Prometheus client as a map from label values to the last value; staleness within the evaluator cache lifetime is C05's allowance; "
+             "float64 gauge values exact below 2^53. The tie is sampled."),
+}
+TEXT["C18"] = {
+    "design_ref": "DESIGN.md §4.18",
+    "technique": "Lean 4 non-interference theorem over the configuration model (responses are independent of password values, for all configurations, requests and backends) + generated list of viper key literals + differential correspondence on generated configurations rendered with two password assignments",
+    "text": ("Proof: Props/C18.lean states the property as non-interference and proves it: for every backend, world, method and path, replacing the configuration by one with the same keys that "
+             "differs only in the values of sasl.<p>.password / notifier.<n>.password leaves every response (and the world) unchanged (responses_independent_of_passwords, "
+             "handler_independent_of_passwords) — including dotted names that reach into other sections, by a key-shape argument (not_password_of_suffix, leavesUnder_same) — and the scrape does not "
+             "read configuration at all; `decide` over the viper key literals REGENERATED from package httpserver shows none names a password/secret/token and that the model reads only suffixes "
+             "that occur in the source (no_password_key_read, model_reads_only_source_literals). Tie: configurations of every module class and profile shape rendered with two random password "
+             "assignments, all config routes x all names; each response equals the model's field by field; plus a containment TEST (labelled as a test) for the concrete password values."),
+    "note": ("Trusted: Lean kernel + 3 standard axioms; viper modelled as a flattened key-path map (validated differentially); log output and process environment not modelled. The tie is sampled."),
+}
